@@ -520,6 +520,10 @@ func (m *wireModel) RSeqs(f *ssa.Function) [][]string {
 					args = append(args, core.Sym(a))
 				}
 				sub := m.RSeqs(callee)
+				if len(sub) == 1 && len(sub[0]) == 0 {
+					// a helper without any wire event (e.g. a constructor): nothing to record
+					return nil
+				}
 				if recvNamed(callee) != "StreamReader" || len(sub) > 3 {
 					out = []string{"call:" + callee.Name() + "(" + strings.Join(args[1:], ",") + ")"}
 				} else if len(sub) == 1 {
